@@ -204,6 +204,8 @@ pub struct Obs {
     pub tokens: Vec<Result<Vec<Tok>, String>>,
     pub conn: Vec<i32>,
     pub dims: (usize, usize),
+    /// character table on a probe set: (code point, (category set, primary, invoke, group, length))
+    pub chars: Vec<(u32, (u32, u32, bool, bool, u16))>,
 }
 
 pub const OBS_OPTS: [Opts; 2] = [
@@ -228,6 +230,12 @@ pub fn observe(d: Dictionary, sentences: &[String]) -> Obs {
             conn.push(guard(|| d.verif_conn_cost(r as u16, l as u16)).unwrap_or(i32::MIN));
         }
     }
+    let mut chars = vec![];
+    for cp in [0u32, 0x1F, 0x20, 0x21, 0x60, 0x61, 0x62, 0x63, 0x64, 0x7A, 0x7B, 0x2FFF, 0x3000, 0x3001, 0x303F, 0x3040, 0x3041, 0x3042, 0x3043, 0x309F, 0x30A0, 0xFFFE, 0xFFFF, 0x10000, 0x10061, 0x1F600] {
+        if let Some(c) = char::from_u32(cp) {
+            chars.push((cp, d.verif_char_info(c)));
+        }
+    }
     let mut tokens = vec![];
     let mut t = vibrato::Tokenizer::new(d);
     for opts in OBS_OPTS {
@@ -242,7 +250,7 @@ pub fn observe(d: Dictionary, sentences: &[String]) -> Obs {
             tokens.push(run_fresh(&t, s, false).map(|r| r.tokens));
         }
     }
-    Obs { tokens, conn, dims }
+    Obs { tokens, conn, dims, chars }
 }
 
 /// Executes a history from a fresh build. Returns the dictionary after the last op, or the
@@ -265,7 +273,11 @@ pub fn exec_history(f: &Family, hist: &[Op]) -> Result<Dictionary, (usize, RealS
 }
 
 pub fn family_d(_tier: Tier) -> Vec<Family> {
-    let (cats, ranges) = lex_char_def();
+    let (cats, mut ranges) = lex_char_def();
+    // neighbouring code points whose FIRST category is the same and whose category sets differ
+    // ('b' is AL and KJ, its neighbours AL only), and a single overridden code point inside a block
+    ranges.push(('b' as u32, 'b' as u32, vec![2, 3]));
+    ranges.push((0x3042, 0x3042, vec![3, 2]));
     // feature strings with text-level corners: a quoted cell with a line break, trailing blank,
     // TAB, empty feature, leading '#'
     let rows = vec![
